@@ -228,6 +228,7 @@ void body(const Json& prog, const std::string& root) {
     sim::DirSimConfig dc;
     dc.enabled = true;
     dc.unknown_dtype_rate = prog.getd("unknown_dtype", 0);
+    dc.root = root;
     sim::set_dirsim(dc);
     sim::reset_handle_count();
     if (chdir(root.c_str()) != 0) { perror("chdir root"); _exit(13); }
